@@ -18,3 +18,33 @@ Theorem c03_single_input_refuted :
   exists cf h s g, get_group (fst (run pinned_tree cf init_state h)) s = Some g /\ occupied g = 2%nat.
 Proof. exact single_input_refuted_pinned. Qed.
 Print Assumptions c03_single_input_refuted.
+
+(* An input that arrives (publish / ANNOUNCE / customize / start_rtp_pub / start_relay_pull /
+   a relay pull that connects) while another session is the accepted input of the stream
+   is refused - RRef = the publisher is disconnected, RCode = the API call reports failure,
+   for a connecting pull the session is dropped - and the accepted input, its pipeline and the
+   Group object stay as they were ([keeps]). *)
+Theorem c03_refuse_when_busy : forall cf st e s g,
+  arrival_stream e = Some s -> get_group st s = Some g -> has_in g = true ->
+  (forall x, subject_of e = Some x -> occupies x s g = false) ->
+  refusal e (snd (fst (step fixed_tree cf st e))) /\ keeps s g (fst (fst (step fixed_tree cf st e))).
+Proof. intros cf st e s g. exact (refuse_when_busy fixed_tree cf st e s g eq_refl eq_refl). Qed.
+Print Assumptions c03_refuse_when_busy.
+
+(* Every event about a session other than the accepted input - its arrival and refusal, its
+   departure, its kick, the success / failure / end of a relay pull that is not attached,
+   subscribers coming and going, media of another session - leaves the input slots, the
+   per-input pipeline and the Group object of the stream unchanged. *)
+Theorem c03_noninterference : forall cf st e x s g,
+  subject_of e = Some x -> get_group st s = Some g -> has_in g = true -> occupies x s g = false ->
+  keeps s g (fst (fst (step fixed_tree cf st e))).
+Proof. exact (foreign_event_step fixed_tree eq_refl eq_refl). Qed.
+Print Assumptions c03_noninterference.
+
+(* F-10: on the pinned tree the end of a pull that never attached clears the accepted publisher *)
+Theorem c03_noninterference_refuted :
+  exists cf st e x s g,
+    reachable pinned_tree cf st /\ subject_of e = Some x /\ get_group st s = Some g /\ has_in g = true /\
+    occupies x s g = false /\ ~ keeps s g (fst (fst (step pinned_tree cf st e))).
+Proof. exact foreign_event_refuted_pinned. Qed.
+Print Assumptions c03_noninterference_refuted.
